@@ -68,6 +68,19 @@ Theorem C15_repoint_cycle : forall (po : list (Z * option Z)) (kept : list Z) (s
 Proof. exact gen_repoint_one_total. Qed.
 Print Assumptions C15_repoint_cycle.
 
+(* The whole function (dict comprehension + per-survivor loop + write-back) as Model/Meta.v frames the generated
+   walk: on an acyclic snapshot list every survivor keeps id / timestamp / sequence number / manifests and receives
+   the nearest surviving ancestor of its old link; on ANY list it receives nothing or a kept, reachable id. *)
+Theorem C15_repoint_all : forall (all kept : list snap) (s' : snap), In s' (repoint_all all kept) ->
+  (exists s, In s kept /\ sid s' = sid s /\ walk_post (parent_map all) (map sid kept) (parent s) (parent s')) /\
+  (acyclic (parent_map all) ->
+   exists s, In s kept /\ sid s' = sid s /\ ts s' = ts s /\ seq s' = seq s /\ mlist s' = mlist s /\
+             nsa (parent_map all) (map sid kept) (parent s) (parent s')).
+Proof.
+  intros all kept s' Hin. split; [exact (repoint_all_safe all kept s' Hin)|intro Hac; exact (repoint_all_nearest all kept s' Hac Hin)].
+Qed.
+Print Assumptions C15_repoint_all.
+
 (* the current snapshot is never expired, neither by expire_snapshots nor by the retention property *)
 Theorem C15_current_kept : forall (m : meta) (x : Z), cur m = Some x -> In x (sids m) ->
   (forall cutoff, cur (expire cutoff m) = Some x /\ In x (sids (expire cutoff m))) /\
